@@ -101,7 +101,7 @@ def main(argv: list[str] | None = None) -> int:
             print(j['name'], j.get('budget_s'), j.get('kind', 'symex'))
         return 0
     # longest first
-    jobs.sort(key=lambda j: -j.get('budget_s', 0))
+    jobs.sort(key=lambda j: (-j.get('prio', 5), -j.get('budget_s', 0)))
     results = []
     with cf.ThreadPoolExecutor(max_workers=args.workers) as ex:
         futs = {ex.submit(run_job, j): j for j in jobs}
